@@ -16,7 +16,7 @@ if (cd $moddir && go test -vet=off -count=1 $pkgs) > $wt/.t_existing.log 2>&1; t
 cp $chg/demo/*.go $moddir/$dst/ 2>/dev/null
 runre=$(grep -h "^func Test" $chg/demo/*.go | sed 's/func \(Test[A-Za-z0-9_]*\).*/\1/' | paste -sd'|')
 runargs=(-run "^($runre)\$")
-if [ -z "$runre" ]; then runargs=(-ginkgo.focus=SEED); fi
+if [ -z "$runre" ]; then runargs=("-ginkgo.focus=${FOCUS:-SEED}"); fi
 if (cd $moddir && go test -vet=off -count=1 ./$dst/ "${runargs[@]}") > $wt/.t_demo_with.log 2>&1; then dw=pass; else dw=fail; fi
 git apply -R $chg/patch.diff
 if (cd $moddir && go test -vet=off -count=1 ./$dst/ "${runargs[@]}") > $wt/.t_demo_without.log 2>&1; then dwo=pass; else dwo=fail; fi
